@@ -89,6 +89,8 @@ pub const ALL_REBUILDS: [RebuildPath; 7] = [
 pub enum Op {
     Add { slot: u16, spec: OrderSpec },
     Match { size: MatchSize },
+    /// a match whose taker id is taken from the id pool (it may equal a resting order's id)
+    MatchAs { size: MatchSize, taker: u16 },
     Cancel { target: Target },
     UpdatePrice { target: Target, same: bool },
     UpdateQty { target: Target, qty: u64 },
@@ -156,6 +158,10 @@ pub struct History {
     /// its public serde form, e.g. a persisted generator near the top of the counter range)
     #[serde(default)]
     pub gen_start: u64,
+    /// quantities are NOT trimmed to keep the level's sums within 64 bits (only used where the
+    /// oracle does not involve the aggregates: C04, C11); the aggregates may wrap
+    #[serde(default)]
+    pub wrap_ok: bool,
 }
 
 // ------------------------------------------------------------------------------------
@@ -177,6 +183,8 @@ pub struct HistCfg {
     pub w_rebuild: u32,
     /// bulk operations (churn of add+cancel pairs, bursts of resting orders)
     pub w_bulk: u32,
+    /// allow sums beyond 64 bits in boundary-profile histories (History::wrap_ok)
+    pub wrap_ok: bool,
     /// append a draining match at the end
     pub final_drain: bool,
     pub kind_weights: [u32; 7],
@@ -200,6 +208,7 @@ impl HistCfg {
             w_read: 4,
             w_rebuild: 4,
             w_bulk: 1,
+            wrap_ok: false,
             final_drain: false,
             kind_weights: [3, 4, 1, 2, 2, 2, 5],
             increasing_ts_share: 4,
@@ -267,6 +276,10 @@ pub fn op_strategy(cfg: HistCfg, profile: Profile) -> BoxedStrategy<Op> {
         cfg.w_match,
         match_size(profile).prop_map(|size| Op::Match { size }).boxed(),
     ));
+    v.push((
+        (cfg.w_match / 8).max(if cfg.w_match > 0 { 1 } else { 0 }),
+        (match_size(profile), any::<u16>()).prop_map(|(size, taker)| Op::MatchAs { size, taker }).boxed(),
+    ));
     v.push((cfg.w_cancel, target().prop_map(|target| Op::Cancel { target }).boxed()));
     v.push((
         cfg.w_upd_price,
@@ -304,8 +317,9 @@ pub fn op_strategy(cfg: HistCfg, profile: Profile) -> BoxedStrategy<Op> {
         4 => 1u16..=8,
         2 => 60u16..=70,
         2 => 126u16..=132,
-        1 => 250u16..=260,
+        2 => 250u16..=260,
         1 => 1u16..=300,
+        1 => 1020u16..=1030,
     ];
     v.push((
         cfg.w_bulk * 3,
@@ -350,13 +364,14 @@ pub fn history(cfg: HistCfg) -> BoxedStrategy<History> {
                 1 => gen::boundary_u64(),
                 1 => (u64::MAX - 40)..=u64::MAX,
                 1 => prop_oneof![Just(9_999_999_999_999_999_990u64), Just(10_000_000_000_000_000_000u64), Just(99_990u64), Just(999_999_999_990u64)],
-            ],
+            ]
+            .prop_flat_map(|g| any::<bool>().prop_map(move |w| (g, w))),
         )
-            .prop_map(move |(price, pool, mut ops, hold, gen_start)| {
+            .prop_map(move |(price, pool, mut ops, hold, (gen_start, wrap))| {
                 if cfg.final_drain {
                     ops.push(Op::Match { size: MatchSize::AllPlus1 });
                 }
-                History { zeros: cfg.zeros, price, profile, ts_mode, pool, ops, ghost: None, hold, gen_start }
+                History { zeros: cfg.zeros, price, profile, ts_mode, pool, ops, ghost: None, hold, gen_start, wrap_ok: cfg.wrap_ok && profile == Profile::Boundary && wrap }
             })
     })
     .boxed()
@@ -566,6 +581,7 @@ pub fn apply_concrete(level: &PriceLevel, gen: &UuidGenerator, c: &Concrete, bud
 }
 
 pub struct Interp {
+    pub wrap_ok: bool,
     /// handles kept alive on behalf of the caller (History::hold)
     pub hold: bool,
     pub held: Vec<Arc<Order>>,
@@ -624,6 +640,7 @@ fn listing_of(level: &PriceLevel) -> Vec<Order> {
 impl Interp {
     pub fn new(h: &History) -> Self {
         Interp {
+            wrap_ok: h.wrap_ok,
             hold: h.hold,
             held: Vec::new(),
             bulk_counter: 0,
@@ -921,7 +938,11 @@ impl Interp {
         self.step += 1;
         let r = match op {
             Op::Add { slot, spec } => self.do_add(*slot, spec),
-            Op::Match { size } => self.do_match(*size),
+            Op::Match { size } => self.do_match(*size, None),
+            Op::MatchAs { size, taker } => {
+                let id = self.pool[pick(*taker, self.pool.len())];
+                self.do_match(*size, Some(id))
+            }
             Op::Cancel { target } => {
                 let id = self.resolve(*target);
                 self.do_remove(OrderUpdate::Cancel { order_id: id }, id)
@@ -1057,7 +1078,7 @@ impl Interp {
             }
         };
         if !self.dead {
-            let after_match = matches!(op, Op::Match { .. });
+            let after_match = matches!(op, Op::Match { .. } | Op::MatchAs { .. });
             self.check_invariants(after_match);
         }
         r
@@ -1104,7 +1125,7 @@ impl Interp {
         let mut spec = spec;
         let ghost = id == ghost_id();
         // sums must fit in 64 bits (quantifier): trim against the headroom
-        let room = self.headroom();
+        let room = if self.wrap_ok { u64::MAX } else { self.headroom() };
         if spec.display > room {
             spec.display = room;
         }
@@ -1166,7 +1187,7 @@ impl Interp {
             .fold(0u64, |a, b| a.saturating_add(b))
     }
 
-    fn do_match(&mut self, size: MatchSize) -> OpResult {
+    fn do_match(&mut self, size: MatchSize, taker_override: Option<OrderId>) -> OpResult {
         let listing_disp: Vec<u64> = {
             let mut v: Vec<&Entry> = self.model.iter().collect();
             v.sort_by_key(|e| e.cur.timestamp());
@@ -1221,7 +1242,7 @@ impl Interp {
         self.event_since_match = false;
         self.facts.matches += 1;
         self.taker_counter += 1;
-        let taker = OrderId::from_u64(0xFFFF_0000_0000_0000 | self.taker_counter);
+        let taker = taker_override.unwrap_or_else(|| OrderId::from_u64(0xFFFF_0000_0000_0000 | self.taker_counter));
         let budget = 4000 + 40 * self.pushes + 400 * (n + rounds);
         self.note(|| format!("match {} (from {:?})", s, size));
         self.concrete.push(Concrete::Match(s, taker));
